@@ -1091,6 +1091,14 @@ static void known_findings() {
     else if (r.oc == sbx::OK) vh::stat("kf.alloc.leak_after_bad_alloc.not_reproduced");
     else { Fail f{0, r.oc, r.diag, false}; report_fail(c, f, "alloc-kf-"); }
   }
+  {  // (7) single point, Round join, arc tolerance above |delta|: repaired by 0b1a857 (was: Ellipse()'s default step count,
+     //     PI*sqrt(radius) = 3.3e6 vertices for delta 2^40); the label is not listed, so a recurrence is a violation
+    Case c; c.op = OP_INFLATE64; c.gen = "corpus";
+    c.A = {Path64{Point64(-1099511627776, -755914244096)}};
+    c.p[0] = (int64_t)JoinType::Round; c.p[1] = (int64_t)EndType::Butt; c.f[0] = 1099511627776.0; c.f[1] = 2.0; c.f[2] = 2.7e13;
+    kf_alloc_volume("corpus.offset.single_point_coarse_arc", c, 4096, 256,
+                    "InflatePaths({{(-2^40, -755914244096)}}, delta 2^40, Round, Butt, miter limit 2, arc tolerance 2.7e13) requests more than 1 MB from the heap for one input point");
+  }
   {  // (6) RDP copies the whole path on every recursive call
     Case c; c.op = OP_RDP64; c.gen = "kf";
     Path64 p; const int n = 3000;
